@@ -54,6 +54,14 @@ type scenario struct {
 	// SDecoy: the server-side twin: after this connection's handshake another client with the
 	// smallest buffers (8192/8192) connects to the SAME uacp.Listener.
 	SDecoy bool `json:"sdecoy,omitempty"`
+	// Policy / Mode of the secure channel (default None): the chunk sizes on the wire are those
+	// actually written under signing / encryption.
+	Policy string `json:"policy,omitempty"`
+	Mode   string `json:"mode,omitempty"`
+	// Aborts: before the message under test, messages in the same direction are given up after
+	// Aborts[i] intermediate chunks and aborted (MSGA); policy None only (the proxy turns a chunk
+	// of a real message into the abort chunk).
+	Aborts []int `json:"aborts,omitempty"`
 }
 
 type event map[string]any
@@ -167,6 +175,12 @@ func run(sc scenario) (trace []event, err error) {
 	var mu sync.Mutex
 	chunks := map[string][]int{}
 	var hello, ack event
+	// abort plan (policy None): in direction abortDir the message with the next new request id is
+	// cut after abortAfter intermediate chunks: chunk abortAfter+1 becomes the abort chunk (same
+	// channel id, token, sequence number and request id), the rest of that message is dropped.
+	abortDir, abortAfter := "", 0
+	abortReq, abortSeen, aborting := uint32(0), 0, false
+	abortedChunks := 0
 	tap := func(f chanpair.Frame) [][]byte {
 		mu.Lock()
 		defer mu.Unlock()
@@ -176,18 +190,57 @@ func run(sc scenario) (trace []event, err error) {
 		case "ACK":
 			ack = decodeCfg(f.Data)
 		case "MSG", "OPN":
+			if f.Type() == "MSG" && f.Dir == abortDir && len(f.Data) >= 24 {
+				req := binary.LittleEndian.Uint32(f.Data[20:])
+				if !aborting && f.Kind() == 'C' {
+					aborting, abortReq, abortSeen = true, req, 0
+				}
+				if aborting && req == abortReq {
+					if abortSeen < abortAfter {
+						abortSeen++
+						abortedChunks++
+						return chanpair.Pass(f)
+					}
+					if abortSeen == abortAfter {
+						abortSeen++
+						ab := &uasc.MessageAbort{ErrorCode: uint32(ua.StatusBadRequestTooLarge), Reason: "given up"}
+						body, _ := ab.Encode()
+						out := append(append([]byte{}, f.Data[:24]...), body...)
+						out[3] = 'A'
+						binary.LittleEndian.PutUint32(out[4:], uint32(len(out)))
+						if f.Kind() == 'F' {
+							abortDir, aborting = "", false
+						}
+						return [][]byte{out}
+					}
+					if f.Kind() == 'F' {
+						abortDir, aborting = "", false
+					}
+					return nil // rest of the aborted message
+				}
+			}
 			chunks[f.Dir+f.Type()] = append(chunks[f.Dir+f.Type()], len(f.Data))
 		}
 		return chanpair.Pass(f)
 	}
+	planAbort := func(dir string, after int) {
+		mu.Lock()
+		abortDir, abortAfter, aborting, abortedChunks = dir, after, false, 0
+		mu.Unlock()
+	}
+	abortDone := func() (bool, int) {
+		mu.Lock()
+		defer mu.Unlock()
+		return abortDir == "", abortedChunks
+	}
 	cack := ackOf(sc.Ccfg)
 	p, err := chanpair.Open(chanpair.Opts{ClientACK: cack, ServerACK: ackOf(sc.Scfg), Tap: tap,
-		RequestTimeout: 10 * time.Second, NoOpen: true})
+		Policy: sc.Policy, Mode: sc.Mode, RequestTimeout: 10 * time.Second, NoOpen: true})
 	if err != nil {
 		return nil, fmt.Errorf("pair: %w", err)
 	}
 	defer p.Close()
-	trace = append(trace, event{"ev": "cfg", "id": sc.ID, "c": sc.Ccfg, "s": sc.Scfg})
+	trace = append(trace, event{"ev": "cfg", "id": sc.ID, "c": sc.Ccfg, "s": sc.Scfg, "sec": sc.Policy + "/" + sc.Mode})
 	mu.Lock()
 	if hello == nil || ack == nil {
 		mu.Unlock()
@@ -268,6 +321,25 @@ func run(sc scenario) (trace []event, err error) {
 		defer closeDecoy()
 	}
 
+	// next server-side event: an error of the receive path or a ReadRequest (the server loop also
+	// reports the OpenSecureChannel exchange, which is skipped)
+	next := func(wait time.Duration) *uasc.MessageBody {
+		dl := time.After(wait)
+		for {
+			select {
+			case m := <-p.ServerMsgs:
+				if m.Err != nil {
+					return m
+				}
+				if _, ok := m.Request().(*ua.ReadRequest); ok {
+					return m
+				}
+			case <-dl:
+				return nil
+			}
+		}
+	}
+
 	// OpenSecureChannel is the first message pair on the connection
 	octx, ocancel := context.WithTimeout(context.Background(), 3*time.Second)
 	odone := make(chan error, 1)
@@ -318,6 +390,54 @@ func run(sc scenario) (trace []event, err error) {
 		return trace, nil
 	}
 
+	// messages given up after some intermediate chunks, in the direction of the message under test
+	for _, j := range sc.Aborts {
+		big := (j+1)*65600 + 1000
+		planAbort(sc.Dir, j)
+		actx, acancel := context.WithTimeout(context.Background(), 6*time.Second)
+		adone := make(chan error, 1)
+		if sc.Dir == "c2s" {
+			go func() {
+				adone <- p.Client.SendRequest(actx, request(big), nil, func(ua.Response) error { return nil })
+			}()
+			m := next(6 * time.Second)
+			acancel()
+			<-adone
+			if m == nil || m.Err == nil {
+				return nil, fmt.Errorf("aborted request: the server channel reported %v", m)
+			}
+		} else {
+			go func() {
+				adone <- p.Client.SendRequest(actx, request(0), nil, func(ua.Response) error { return nil })
+			}()
+			m := next(6 * time.Second)
+			if m == nil || m.Err != nil {
+				acancel()
+				<-adone
+				return nil, fmt.Errorf("helper request for an aborted response: %v", m)
+			}
+			rctx, rcancel := context.WithTimeout(context.Background(), 6*time.Second)
+			p.Server.SendResponseWithContext(rctx, m.RequestID, response(1, big))
+			rcancel()
+			e := <-adone // the abort reaches the caller as the error of its request
+			acancel()
+			if e == nil {
+				return nil, fmt.Errorf("aborted response was delivered")
+			}
+		}
+		done, n := abortDone()
+		if !done || n != j {
+			return nil, fmt.Errorf("abort plan not carried out: done=%v, %d of %d intermediate chunks passed", done, n, j)
+		}
+		trace = append(trace, event{"ev": "abort", "dir": sc.Dir, "n": j})
+	}
+	if len(sc.Aborts) > 0 {
+		time.Sleep(20 * time.Millisecond)
+		mu.Lock()
+		chunks = map[string][]int{} // helper messages are not part of the trace
+		mu.Unlock()
+	}
+
 	reqPad, respPad := 100-baseReq, 100-baseResp
 	if sc.Dir == "c2s" {
 		reqPad = sc.Len - baseReq
@@ -349,22 +469,6 @@ func run(sc scenario) (trace []event, err error) {
 	// neither an error nor a ReadRequest)
 	var sm *uasc.MessageBody
 	var early *cres
-	next := func(wait time.Duration) *uasc.MessageBody {
-		dl := time.After(wait)
-		for {
-			select {
-			case m := <-p.ServerMsgs:
-				if m.Err != nil {
-					return m
-				}
-				if _, ok := m.Request().(*ua.ReadRequest); ok {
-					return m
-				}
-			case <-dl:
-				return nil
-			}
-		}
-	}
 	got := make(chan *uasc.MessageBody, 1)
 	go func() { got <- next(14 * time.Second) }()
 	select {
@@ -377,9 +481,11 @@ func run(sc scenario) (trace []event, err error) {
 		}
 	}
 	c2s := snapshot("c2sMSG")
-	sendEv := event{"ev": "send", "dir": "c2s", "kind": "msg", "len": bodyLen(c2s), "chunks": c2s, "err": "ok"}
+	sendEv := event{"ev": "send", "dir": "c2s", "kind": "msg", "len": baseReq + reqPad, "chunks": c2s, "err": "ok"}
+	if baseReq == 0 {
+		sendEv["len"] = bodyLen(c2s) // calibration (policy None)
+	}
 	if len(c2s) == 0 {
-		sendEv["len"] = baseReq + reqPad
 		if early != nil && early.err != nil {
 			sendEv["err"] = "refused"
 			sendEv["detail"] = early.err.Error()
@@ -424,9 +530,11 @@ func run(sc scenario) (trace []event, err error) {
 		}
 	}
 	s2c := snapshot("s2cMSG")
-	sendEv = event{"ev": "send", "dir": "s2c", "kind": "msg", "len": bodyLen(s2c), "chunks": s2c, "err": "ok"}
+	sendEv = event{"ev": "send", "dir": "s2c", "kind": "msg", "len": baseResp + respPad, "chunks": s2c, "err": "ok"}
+	if baseResp == 0 {
+		sendEv["len"] = bodyLen(s2c)
+	}
 	if len(s2c) == 0 {
-		sendEv["len"] = baseResp + respPad
 		if serr == nil {
 			return nil, fmt.Errorf("response neither on the wire nor refused")
 		}
